@@ -274,6 +274,34 @@ class Corpus:
             kind="concat-corrupt", valid=False, **common)
         cat("cat-x86+sized", [bytes(xb), bytes(a)], kind="concat", valid=True, sized=True, bcj=True, nblocks=mx["nblocks"] + ma["nblocks"], usize=mx["usize"] + ma["usize"])
 
+        # ---- one Stream that mixes Blocks with and without size fields (threaded <-> direct mode inside a Stream)
+        def splice(name, first, second, **kw):
+            sa, sb = parse_stream(bytes(first)), parse_stream(bytes(second))
+            if sa["check"] != sb["check"]:
+                return
+            body = bytes(first[12:sa["index_off"]]) + bytes(second[12:sb["index_off"]])
+            recs = [(bk["unpadded"], bk["usize"]) for bk in sa["blocks"]] + [(bk["unpadded"], bk["usize"]) for bk in sb["blocks"]]
+            idx = rebuild_index(recs)
+            flags2 = bytes(first[sa["footer_off"] + 8:sa["footer_off"] + 10])
+            self.add(name, bytes(first[:12]) + body + idx + rebuild_footer(len(idx), flags2), concatenated=False, **kw)
+        mixmeta = dict(sized=True, bcj=False, nblocks=ma["nblocks"] + mn["nblocks"], usize=ma["usize"] + mn["usize"])
+        splice("mix-sized-then-nosize", a, n, kind="mixed", valid=True, **mixmeta)
+        splice("mix-nosize-then-sized", n, a, kind="mixed", valid=True, **mixmeta)
+        splice("mix-sized-nosize-sized", bytearray(open(self.entries[-2]["path"], "rb").read()), a, kind="mixed", valid=True,
+               sized=True, bcj=False, nblocks=2 * ma["nblocks"] + mn["nblocks"], usize=2 * ma["usize"] + mn["usize"])
+        for e in list(self.entries):
+            if e["kind"] == "mixed":
+                x = open(e["path"], "rb").read()
+                st2 = parse_stream(x)
+                k = len(st2["blocks"]) - 1
+                bk = st2["blocks"][k]
+                d = bytearray(x)
+                d[bk["off"] + bk["hsize"] + max(1, (bk["unpadded"] - bk["hsize"]) // 2)] ^= 0x20
+                self.add(e["name"] + "+corrupt-last-data", d, kind="mixed-corrupt", valid=False, concatenated=False,
+                         sized=True, bcj=False, nblocks=e["nblocks"], usize=e["usize"])
+                self.add(e["name"] + "+trunc-mid-last-block", x[:bk["off"] + bk["hsize"] + (bk["unpadded"] - bk["hsize"]) // 2],
+                         kind="mixed-truncated", valid=False, concatenated=False, sized=True, bcj=False, nblocks=e["nblocks"], usize=e["usize"])
+
         # ---- the repository's own test files
         tdir = os.path.join(repo, "tests", "files")
         names = sorted(f for f in os.listdir(tdir) if f.endswith(".xz"))
